@@ -2,14 +2,22 @@
 import json
 
 
+def _fn(g):
+    """bit-order half of the ops function an accessor calls (`load_lsb0` -> `lsb0`); an accessor whose body is not
+    the one call of a `device_driver::ops` function (gen_runner reports func = null) is printed as such, so that it
+    differs from every model string instead of crashing the check"""
+    f = g.get("func")
+    return f.split("_")[1] if isinstance(f, str) and "_" in f else "NO-OPS-CALL"
+
+
 def canon_fs(facts):
     out = []
     for fs in facts.get("field_sets", []):
         s = f"fs:{fs['name']}:{fs['size_bytes']}:{fs['size_bits']}"
         for g in fs["getters"]:
-            s += f"[g:{g['name']}:{g['func'].split('_')[1]}:{g['carrier']}:{g['byte_order']}:{g['start']}:{g['end']}:{g['conv']}:{g['ret']}]"
+            s += f"[g:{g['name']}:{_fn(g)}:{g['carrier']}:{g['byte_order']}:{g['start']}:{g['end']}:{g['conv']}:{g['ret']}]"
         for g in fs["setters"]:
-            s += f"[s:{g['name']}:{g['func'].split('_')[1]}:{g['carrier']}:{g['byte_order']}:{g['start']}:{g['end']}:{g['conv']}:{g['arg']}]"
+            s += f"[s:{g['name']}:{_fn(g)}:{g['carrier']}:{g['byte_order']}:{g['start']}:{g['end']}:{g['conv']}:{g['arg']}]"
         out.append(s)
     return ";".join(out)
 
@@ -27,6 +35,10 @@ def direct_bounds_violations(facts):
         if not (size <= 8 * n):
             bad.append((fs["name"], "size_bits > 8*bytes"))
         for a in fs["getters"] + fs["setters"]:
+            if not isinstance(a.get("func"), str) or a.get("start") is None or a.get("end") is None:
+                # the accessor's body is not the one ops call with literal bounds: what it touches is not established
+                bad.append((fs["name"], a["name"], "accessor does not go through a device_driver::ops call with literal bounds"))
+                continue
             s, e = a["start"], a["end"]
             if not (0 <= s < e <= size):
                 bad.append((fs["name"], a["name"], f"range {s}..{e} not inside 0..{size}"))
